@@ -6,6 +6,7 @@ import (
 	"fmt"
 	"io"
 	"net/http"
+	"net/http/httptest"
 	"os"
 	"strings"
 	"sync"
@@ -363,6 +364,7 @@ func c14(run *ev.Run) int {
 	c14ReadLimit(run, srv)
 	c14DoFails(run)
 	c14HandlerReadLimit(run)
+	c14PlainHTTP1Peer(run)
 	run.Set("distinct_interleaving_signatures", len(signatures))
 	run.Count("interleaving.signatures", int64(len(signatures)))
 	serverPanicCheck(run, srv, "c14")
@@ -920,4 +922,53 @@ func c14HandlerReadLimit(run *ev.Run) {
 		}
 	}
 	wg.Wait()
+}
+
+// c14PlainHTTP1Peer: the peer is not this library - an HTTP/1.1 server (a
+// proxy that downgraded the connection, a misrouted path) that reads the
+// request and answers 200. Bidi calls cannot work there and fail; the same
+// client then makes the same call again and again. Every operation of every
+// call returns, and nothing of the library stays behind.
+func c14PlainHTTP1Peer(run *ev.Run) {
+	for _, p := range svc.Protocols {
+		key := fmt.Sprintf("c14/plain-http1-peer/%s", p)
+		if !run.Want(key) {
+			continue
+		}
+		ct := contentType(p, "proto", svc.Bidi)
+		peer := httptest.NewServer(http.HandlerFunc(func(w http.ResponseWriter, r *http.Request) {
+			_, _ = io.Copy(io.Discard, r.Body)
+			w.Header().Set("Content-Type", ct)
+			w.WriteHeader(200)
+		}))
+		hc := &http.Client{Transport: &http.Transport{}}
+		cs := svc.NewClientSet(hc, peer.URL, svc.ProtoOpts(p, "proto")...)
+		for n := 1; n <= 3; n++ {
+			ctx, cancel := context.WithCancel(context.Background())
+			sd := &scripted{cs: cs, kind: svc.Bidi, callID: fmt.Sprintf("peer-%d", n), ctx: ctx, cancel: cancel, timeout: 15 * time.Second}
+			cr := sd.run([]string{"S", "CR", "R", "CP"})
+			run.Count("cases", 1)
+			run.Count("plain_http1_peer.calls", 1)
+			run.Eval(fmt.Sprintf("plain-http1-peer|%s|call=%d", p, n))
+			detail := map[string]any{"protocol": p, "call_number_on_this_client": n, "ops": describeOps(cr)}
+			hung := false
+			for _, o := range cr.Ops {
+				run.Count("ops.returned", 1)
+				if !o.Returned {
+					detail["goroutines"] = trunc(o.Dump, 20000)
+					run.Violation(fmt.Sprintf("%s/call=%d/hang", key, n), fmt.Sprintf("operation %s of bidi call number %d on a client whose peer is a plain HTTP/1.1 server did not return within 15 s", o.Op, n), detail)
+					hung = true
+					break
+				}
+			}
+			if hung || cr.Slow {
+				cancel()
+				break
+			}
+			c14KeepAlive(cancel)
+		}
+		hc.CloseIdleConnections()
+		peer.Close()
+	}
+	c14Census(run, "c14/plain-http1-peer/census", []string{"c14/plain-http1-peer"})
 }
